@@ -49,7 +49,7 @@ def enum_variant_of_const(program, t):
 
 def _const_value(k):
     v = k.get("v")
-    name = k.get("named")
+    name = k.get("named") if k.get("promoted") is None else None
     if v is None:
         return ("const", None, name)
     if "int" in v:
@@ -587,6 +587,29 @@ def _discr_names(body, discr_op, b):
                 if vs:
                     return {d: n for d, n in vs}
     return {}
+
+
+def dom_conds(body, slicer, b):
+    """Conditions that hold on *every* path reaching block b (conjunctive): the branch edges (a -> s) with s on the
+    dominator chain of b and a the only predecessor of s.  Unlike control dependence this is loop-safe: conditions of
+    earlier loop iterations are not included."""
+    out = []
+    idom = C.idom(body)
+    x = b
+    guard = 0
+    while x in idom and idom[x] != x and guard < 100000:
+        guard += 1
+        p = idom[x]
+        preds = [q for q in body.preds(x) if q in body.reachable]
+        if len(preds) == 1 and preds[0] == p and len(body.succs(p)) >= 2:
+            be = branch_edges(body, slicer, p)
+            if be is not None:
+                atom, labels = be
+                if x in labels:
+                    out.append((atom, labels[x], p))
+        x = p
+    out.reverse()
+    return out
 
 
 def controls(body, slicer, b):
